@@ -577,3 +577,141 @@ Proof.
   split; [eexists; split; vm_compute; reflexivity|].
   repeat split; vm_compute; reflexivity.
 Qed.
+
+(* ================= from the layering to the unambiguity hypotheses ================= *)
+
+(* a resource of the map, where it came from: a fresh well formed document and the renaming transformers
+   its layers ran on it (comma free arguments) *)
+Definition produced (cs : string -> string -> bool) (nonstr : string -> bool)
+           (p : resource * list rename_step) (r : resource) : Prop :=
+  wf_res (fst p) /\ ptriples (fst p) = [] /\ forallb step_ok (snd p) = true /\
+  gen_apply_steps cs nonstr (snd p) (fst p) = Ok r.
+
+(* the original name and what the layers may have made of it *)
+Definition may_have_been (p : resource * list rename_step) (v : string) : bool :=
+  ever_named (snd p) (get_name (r_node (fst p))) v.
+
+Lemma produced_names cs nonstr p r c :
+  produced cs nonstr p r -> view cs r = Ok c ->
+  (forall v, prev_name_matches v c = true -> may_have_been p v = true) /\ may_have_been p (c_name c) = true.
+Proof.
+  intros (Hw & Hf & Hok & Hrun) Hv.
+  pose proof (history_prefix cs nonstr _ _ _ _ _ gen_prefix_table gen_suffix_table gen_namespace_table_ok
+                             _ _ _ Hok Hw Hrun) as ([Hh' Hw'] & _).
+  destruct (prev_ids_triples r Hh') as (p0 & Hp & Hpt).
+  unfold view in Hv. rewrite Hp in Hv. cbn [bind] in Hv. inv Hv. cbn [c_prev c_name].
+  assert (Hall: forall v, In v (hist_names cs r) -> may_have_been p v = true).
+  { intros v Hin. eapply (fresh_names cs nonstr); eauto using gen_prefix_table, gen_suffix_table, gen_namespace_table_ok. }
+  split.
+  - intros v Hm. apply Hall. unfold prev_name_matches in Hm. cbn [c_prev] in Hm.
+    apply existsb_exists in Hm as (id & Hin & He). apply String.eqb_eq in He. subst v.
+    unfold hist_names, history. rewrite map_app. apply in_or_app. left. rewrite <- Hpt, map_map.
+    apply in_map_iff. exists id. split; [reflexivity|assumption].
+  - apply Hall. unfold hist_names, history. rewrite map_app. apply in_or_app. right. left. reflexivity.
+Qed.
+
+Lemma Forall2_nth_r {A B} (R : A -> B -> Prop) l l' k y :
+  Forall2 R l l' -> nth_error l' k = Some y -> exists x, nth_error l k = Some x /\ R x y.
+Proof.
+  intros H. revert k. induction H as [|a b l l' Hab Hl IH]; intros [|k] Hn; cbn in *; try discriminate.
+  - inv Hn. eauto.
+  - eauto.
+Qed.
+
+Lemma mapM_nth_r {A B} (f : A -> res B) l l' k y :
+  mapM f l = Ok l' -> nth_error l' k = Some y -> exists x, nth_error l k = Some x /\ f x = Ok y.
+Proof.
+  revert l' k. induction l as [|a t IH]; intros l' k H Hn; cbn [mapM] in H.
+  - inv H. destruct k; discriminate.
+  - destruct (f a) as [b| | |] eqn:Fa; cbn [bind] in H; try discriminate.
+    destruct (mapM f t) as [t'| | |] eqn:Ft; cbn [bind] in H; try discriminate. inv H.
+    destruct k as [|k]; cbn in *; [inv Hn; eauto|eauto].
+Qed.
+
+Lemma mapM_select {A B} (f : A -> res B) flags l all :
+  mapM f l = Ok all -> mapM f (select_by flags l) = Ok (select_by flags all).
+Proof.
+  revert l all. induction flags as [|fl flags IH]; intros l all H; [reflexivity|].
+  destruct l as [|a l]; cbn [mapM] in H.
+  - inv H. destruct fl; reflexivity.
+  - destruct (f a) as [b| | |] eqn:Fa; cbn [bind] in H; try discriminate.
+    destruct (mapM f l) as [bs| | |] eqn:Fl; cbn [bind] in H; try discriminate. inv H.
+    destruct fl; cbn [select_by mapM]; [rewrite Fa; cbn [bind]|]; rewrite (IH l bs Fl); reflexivity.
+Qed.
+
+Lemma filter_select_single {A} (P : A -> bool) : forall j flags (l : list A) b,
+  nth_error l j = Some b -> nth_error flags j = Some true -> P b = true ->
+  (forall k c, k <> j -> nth_error l k = Some c -> P c = false) ->
+  filter P (select_by flags l) = [b].
+Proof.
+  assert (Hnone: forall flags (l : list A), (forall k c, nth_error l k = Some c -> P c = false) ->
+                                            filter P (select_by flags l) = []).
+  { induction flags as [|fl flags IH]; intros l H; [reflexivity|].
+    destruct l as [|a l]; [destruct fl; reflexivity|].
+    assert (Hl: forall k c, nth_error l k = Some c -> P c = false) by (intros k c Hk; apply (H (S k)); exact Hk).
+    destruct fl; cbn [select_by filter]; [rewrite (H 0 a eq_refl)|]; apply IH; assumption. }
+  induction j as [|j IH]; intros flags l b Hb Hf HP Hother.
+  - destruct l as [|a l]; [discriminate|]. destruct flags as [|fl flags]; [discriminate|].
+    cbn in Hb, Hf. inv Hb. inv Hf. cbn [select_by filter]. rewrite HP. f_equal.
+    apply Hnone. intros k c Hk. apply (Hother (S k)); [discriminate|exact Hk].
+  - destruct l as [|a l]; [discriminate|]. destruct flags as [|fl flags]; [discriminate|].
+    cbn in Hb, Hf.
+    assert (Ha: P a = false) by (apply (Hother 0); [discriminate|reflexivity]).
+    assert (Hrest: filter P (select_by flags l) = [b]).
+    { apply IH; auto. intros k c Hk Hc. apply (Hother (S k)); [congruence|exact Hc]. }
+    destruct fl; cbn [select_by filter]; [rewrite Ha|]; exact Hrest.
+Qed.
+
+Section Layering.
+  Variable cs : string -> string -> bool.
+  Variable nonstr : string -> bool.
+  (* provenance of every resource of the map just before FixBackReferences *)
+  Variables (prov : list (resource * list rename_step)) (m : list resource) (C : list cand).
+  Hypothesis Hprov : Forall2 (produced cs nonstr) prov m.
+  Hypothesis HC : mapM (view cs) m = Ok C.
+  (* the referent: position, provenance, view; [old] is its ORIGINAL name *)
+  Variables (j : nat) (pb : resource * list rename_step) (b : cand).
+  Hypothesis Hpb : nth_error prov j = Some pb.
+  Hypothesis Hb : nth_error C j = Some b.
+  Let old := get_name (r_node (fst pb)).
+  (* no OTHER resource may ever have been called like the referent originally, nor like it is called now *)
+  Hypothesis others :
+    forall k p, k <> j -> nth_error prov k = Some p ->
+                may_have_been p old = false /\ may_have_been p (c_name b) = false.
+
+  Lemma other_views k c : k <> j -> nth_error C k = Some c ->
+    prev_name_matches old c = false /\ prev_name_matches (c_name b) c = false.
+  Proof.
+    intros Hk Hc.
+    destruct (mapM_nth_r _ _ _ _ _ HC Hc) as (r & Hr & Hv).
+    destruct (Forall2_nth_r _ _ _ _ _ Hprov Hr) as (p & Hp & Hprod).
+    destruct (produced_names _ _ _ _ _ Hprod Hv) as [Hnames _].
+    destruct (others k p Hk Hp) as [O1 O2].
+    split.
+    - destruct (prev_name_matches old c) eqn:E; [|reflexivity]. rewrite (Hnames _ E) in O1. discriminate.
+    - destruct (prev_name_matches (c_name b) c) eqn:E; [|reflexivity]. rewrite (Hnames _ E) in O2. discriminate.
+  Qed.
+
+  (* the closedness hypotheses of the transformer-level theorem *)
+  Lemma layering_closed :
+    (forall c, In c C -> prev_name_matches old c = true -> c_name c = c_name b) /\
+    (forall c, In c C -> prev_name_matches (c_name b) c = true -> c_name c = c_name b).
+  Proof.
+    split; intros c Hin Hm; apply In_nth_error in Hin as (k & Hk);
+      (destruct (Nat.eq_dec k j) as [->|Hne]; [rewrite Hb in Hk; now inv Hk|]);
+      destruct (other_views k c Hne Hk) as [O1 O2]; congruence.
+  Qed.
+
+  (* ... and its uniqueness hypothesis, for any set of visible candidates that contains the referent *)
+  Lemma layering_unique flags cands x :
+    mapM (view cs) (select_by flags m) = Ok cands -> nth_error flags j = Some true ->
+    name_kind_match x old b = true ->
+    filter (name_kind_match x old) cands = [b].
+  Proof.
+    intros Hsub Hflag Hmatch.
+    rewrite (mapM_select _ flags _ _ HC) in Hsub. inv Hsub.
+    apply (filter_select_single _ j); auto.
+    intros k c Hk Hc. destruct (other_views k c Hk Hc) as [O1 _].
+    unfold name_kind_match. rewrite O1. reflexivity.
+  Qed.
+End Layering.
